@@ -292,20 +292,20 @@ impl MarlinPST13 {
         proof { assert(bviews(plain_coeffs@) =~= coeffs_of(p.terms@)); }
 //@end
 
-//@fn id=pst13.commit file=poly-commit/src/marlin/marlin_pst13_pc/mod.rs scope="impl<E, P> PolynomialCommitment<E::ScalarField, P> for MarlinPST13<E, P>" name=commit props=C08,C07,C17,C01
+//@fn id=pst13.commit file=poly-commit/src/marlin/marlin_pst13_pc/mod.rs scope="impl<E, P> PolynomialCommitment<E::ScalarField, P> for MarlinPST13<E, P>" name=commit props=C08,C07,C17,C01,C19
     fn commit<'a>(ck: &CommitterKey, polynomials: Vec<&'a LabeledMv>, rng: Option<&mut Rng>) -> (res: Result<(Vec<LabeledCommitment<marlin_pc::Commitment>>, Vec<Randomness>), Error>)
     requires
         pst_ck_wf(ck), ck.supported_degree < usize::MAX,
         forall|i: int| 0 <= i < polynomials@.len() ==> ((#[trigger] polynomials@[i]).hiding_bound is Some ==> polynomials@[i].hiding_bound->Some_0 < usize::MAX - 1),
     ensures
         res is Ok ==> (forall|i: int| 0 <= i < polynomials@.len() ==> (#[trigger] polynomials@[i]).polynomial.deg() <= ck.supported_degree
-            && (polynomials@[i].hiding_bound is Some ==> (polynomials@[i].hiding_bound->Some_0 != 0 && polynomials@[i].hiding_bound->Some_0 <= ck.supported_degree))),   // name=pst13.commit.degree_or_hiding_bound_beyond_key_refused props=C17
-        res is Ok ==> res->Ok_0.0@.len() == polynomials@.len() && res->Ok_0.1@.len() == polynomials@.len(),   // name=pst13.commit.one_commitment_and_state_per_polynomial props=C01
-        res is Ok ==> (forall|i: int| 0 <= i < polynomials@.len() ==> pst_commit_one(ck, (#[trigger] polynomials@[i]), &res->Ok_0.0@[i], &res->Ok_0.1@[i])),   // name=pst13.commit.term_indexed_linear_map_plus_blinding props=C08,C07,C01
-        (res is Ok && rng is None) ==> (forall|i: int| 0 <= i < polynomials@.len() ==> (#[trigger] polynomials@[i]).hiding_bound is None),   // name=pst13.commit.hiding_without_rng_never_succeeds props=C07,C17
+            && (polynomials@[i].hiding_bound is Some ==> (polynomials@[i].hiding_bound->Some_0 != 0 && polynomials@[i].hiding_bound->Some_0 <= ck.supported_degree))),   // name=pst13.commit.degree_or_hiding_bound_beyond_key_refused props=C17,C19
+        res is Ok ==> res->Ok_0.0@.len() == polynomials@.len() && res->Ok_0.1@.len() == polynomials@.len(),   // name=pst13.commit.one_commitment_and_state_per_polynomial props=C01,C19
+        res is Ok ==> (forall|i: int| 0 <= i < polynomials@.len() ==> pst_commit_one(ck, (#[trigger] polynomials@[i]), &res->Ok_0.0@[i], &res->Ok_0.1@[i])),   // name=pst13.commit.term_indexed_linear_map_plus_blinding props=C08,C07,C01,C19
+        (res is Ok && rng is None) ==> (forall|i: int| 0 <= i < polynomials@.len() ==> (#[trigger] polynomials@[i]).hiding_bound is None),   // name=pst13.commit.hiding_without_rng_never_succeeds props=C07,C17,C19
         // in-domain requests are answered: an error means some polynomial exceeds the supported degree or asks for a hiding bound of zero / beyond the key
         res is Err ==> (exists|i: int| 0 <= i < polynomials@.len() && !((#[trigger] polynomials@[i]).polynomial.deg() <= ck.supported_degree
-            && (polynomials@[i].hiding_bound is Some ==> (polynomials@[i].hiding_bound->Some_0 != 0 && polynomials@[i].hiding_bound->Some_0 <= ck.supported_degree)))),   // name=pst13.commit.only_out_of_domain_requests_are_refused props=C17,C01
+            && (polynomials@[i].hiding_bound is Some ==> (polynomials@[i].hiding_bound->Some_0 != 0 && polynomials@[i].hiding_bound->Some_0 <= ck.supported_degree)))),   // name=pst13.commit.only_out_of_domain_requests_are_refused props=C17,C01,C19
 //@body
 //@rw * /&mut crate::optional_rng::OptionalRng\(rng\)/ => &mut optional_rng_wrap(rng)
 //@rw * /label\.to_string\(\)/ => string_to_string(label)
@@ -387,7 +387,7 @@ impl MarlinPST13 {
 //@rw 1 /pp\.prepared_beta_h\.clone\(\)/ => vec_g2p_clone(&pp.prepared_beta_h)
 //@end
 //@stub from=pst13_divide.rs id=pst13.divide_at_point
-//@fn id=pst13.open file=poly-commit/src/marlin/marlin_pst13_pc/mod.rs scope="impl<E, P> PolynomialCommitment<E::ScalarField, P> for MarlinPST13<E, P>" name=open props=C01,C07,C11,C15,C17
+//@fn id=pst13.open file=poly-commit/src/marlin/marlin_pst13_pc/mod.rs scope="impl<E, P> PolynomialCommitment<E::ScalarField, P> for MarlinPST13<E, P>" name=open props=C01,C07,C11,C15,C17,C19
     #[verifier::loop_isolation(false)]
     fn open<'a>(ck: &CommitterKey, labeled_polynomials: Vec<&'a LabeledMv>, _commitments: Vec<&'a LabeledCommitment<marlin_pc::Commitment>>, point: &Vec<Fr>, sponge: &mut Sponge, states: Vec<&'a Randomness>, _rng: Option<&mut Rng>) -> (res: Result<Proof, Error>)
     requires
@@ -395,11 +395,11 @@ impl MarlinPST13 {
         forall|i: int| 0 <= i < labeled_polynomials@.len() ==> terms_ok((#[trigger] labeled_polynomials@[i]).polynomial.terms@, 0, labeled_polynomials@[i].polynomial.num_vars as int) && labeled_polynomials@[i].polynomial.num_vars <= point@.len(),
         forall|i: int| 0 <= i < states@.len() ==> terms_ok((#[trigger] states@[i]).blinding_polynomial.terms@, 0, states@[i].blinding_polynomial.num_vars as int) && states@[i].blinding_polynomial.num_vars <= point@.len(),
     ensures
-        res is Ok ==> (forall|i: int| 0 <= i < min(labeled_polynomials@.len(), states@.len()) ==> (#[trigger] labeled_polynomials@[i]).polynomial.deg() <= ck.supported_degree),   // name=pst13.open.degree_beyond_key_refused props=C17
+        res is Ok ==> (forall|i: int| 0 <= i < min(labeled_polynomials@.len(), states@.len()) ==> (#[trigger] labeled_polynomials@[i]).polynomial.deg() <= ck.supported_degree),   // name=pst13.open.degree_beyond_key_refused props=C17,C19
         // one challenge per polynomial, as the verifier squeezes them
-        res is Ok ==> final(sponge).st@ == sp_iter(old(sponge).st@, min(labeled_polynomials@.len(), states@.len())),   // name=pst13.open.squeeze_schedule_matches_verifier props=C11
+        res is Ok ==> final(sponge).st@ == sp_iter(old(sponge).st@, min(labeled_polynomials@.len(), states@.len())),   // name=pst13.open.squeeze_schedule_matches_verifier props=C11,C19
         // the proof commits to the exact quotient decomposition of the challenge-weighted sum (plus, when hiding, that of the summed blinding polynomials, and its value at the point)
-        res is Ok ==> pst_open_post(ck, labeled_polynomials@, point@, states@, old(sponge).st@, &res->Ok_0),   // name=pst13.open.witness_commitments_of_the_exact_decomposition props=C01,C07,C15
+        res is Ok ==> pst_open_post(ck, labeled_polynomials@, point@, states@, old(sponge).st@, &res->Ok_0),   // name=pst13.open.witness_commitments_of_the_exact_decomposition props=C01,C07,C15,C19
 //@body
 //@rw 1 /let mut p = P::zero\(\);/ => let mut p = MvPoly::zero();
 //@rw 1 /Self::check_degrees_and_bounds\(ck\.supported_degree, &polynomial\)\?;/ => Self::check_degrees_and_bounds(ck.supported_degree, polynomial)?;
